@@ -15,16 +15,47 @@ PROP = 'C13'
 LEVEL = 'other'
 
 
+def view_roots(fnode):
+    """local names that are views of another local array (x = y[...], x = y, x = y.T): name -> the array they look into"""
+    cand = {}
+    for n in ast.walk(fnode):
+        if isinstance(n, ast.Assign) and len(n.targets) == 1 and isinstance(n.targets[0], ast.Name):
+            v = n.value
+            while isinstance(v, ast.Subscript) or (isinstance(v, ast.Attribute) and v.attr in ('T', 'real')):
+                v = v.value
+            base = v.id if isinstance(v, ast.Name) and v is not n.value else (v.id if isinstance(v, ast.Name) else None)
+            cand.setdefault(n.targets[0].id, set()).add(base if (isinstance(n.value, (ast.Subscript, ast.Attribute)) and base) else None)
+    roots = {k: list(v)[0] for k, v in cand.items() if len(v) == 1 and list(v)[0] is not None and list(v)[0] != k}
+
+    def root(nm):
+        seen = set()
+        while nm in roots and nm not in seen:
+            seen.add(nm)
+            nm = roots[nm]
+        return nm
+    return root
+
+
 def returned_names(fnode):
+    """per element of the returned tuple: (primary array name, all names the element is computed from)"""
     out = []
+    root = view_roots(fnode)
     for n in ast.walk(fnode):
         if isinstance(n, ast.Return) and isinstance(n.value, ast.Tuple):
-            out = [e.id for e in n.value.elts if isinstance(e, ast.Name)]
+            out = []
+            for e in n.value.elts:
+                names = [x.id for x in ast.walk(e) if isinstance(x, ast.Name) and isinstance(x.ctx, ast.Load)]
+                # the array itself is the name the expression is built on (left-most base), e.g. a_all in a_all[0:n].copy()
+                b = e
+                while isinstance(b, (ast.Subscript, ast.Attribute, ast.Call)):
+                    b = b.value if not isinstance(b, ast.Call) else b.func
+                prim_ = root(b.id) if isinstance(b, ast.Name) else (root(names[0]) if names else None)
+                out.append((prim_, sorted(set(root(x) for x in names))))
     return out
 
 
-def writes_to(st, names):
-    """names (of the output set) a statement may modify: assignment, element store, in-place resize/append"""
+def writes_to(st, names, root=lambda x: x):
+    """names (of the output set) a statement may modify: assignment, element store (also through a view), in-place resize/append"""
     hit = set()
     for n in ast.walk(st):
         tg = []
@@ -36,11 +67,11 @@ def writes_to(st, names):
             for x in ast.walk(t):
                 if isinstance(x, ast.Name) and x.id in names and isinstance(x.ctx, (ast.Store,)):
                     hit.add(x.id)
-                if isinstance(x, ast.Subscript) and isinstance(x.value, ast.Name) and x.value.id in names:
-                    hit.add(x.value.id)
+                if isinstance(x, ast.Subscript) and isinstance(x.value, ast.Name) and root(x.value.id) in names:
+                    hit.add(root(x.value.id))
         if isinstance(n, ast.Call) and isinstance(n.func, ast.Attribute) and isinstance(n.func.value, ast.Name) \
-                and n.func.value.id in names and n.func.attr in ('resize', 'append', 'fill', 'sort'):
-            hit.add(n.func.value.id)
+                and root(n.func.value.id) in names and n.func.attr in ('resize', 'append', 'fill', 'sort'):
+            hit.add(root(n.func.value.id))
     return hit
 
 
@@ -61,9 +92,11 @@ def run(prog, rep, tier='quick'):
     from ..idioms import canonicalise
     node = canonicalise(f.node)
     where = loc(f.mod, f.node)
-    outs = returned_names(node)
-    if len(outs) != 3:
-        raise AnalysisError('arburg no longer returns three names')
+    rets3 = returned_names(node)
+    if len(rets3) != 3 or any(r_[0] is None for r_ in rets3):
+        raise AnalysisError('arburg no longer returns a triple built on three local arrays / scalars')
+    root = view_roots(node)
+    outs = sorted(set(x for r_ in rets3 for x in r_[1]))
     main = None
     for lp in [n for n in node.body if isinstance(n, ast.For)]:
         main = lp
@@ -83,7 +116,7 @@ def run(prog, rep, tier='quick'):
                     for b in sub.body:
                         if any(isinstance(x, ast.Break) for x in ast.walk(b)):
                             break
-                        inner |= writes_to(b, outs)
+                        inner |= writes_to(b, outs, root)
             bad = sorted(seen_write | inner)
             if bad:
                 rep.violation('exit', f.qname, 'break under %s' % normalise(st.test if isinstance(st, ast.If) else st)[:80],
@@ -92,7 +125,7 @@ def run(prog, rep, tier='quick'):
             else:
                 rep.proved('exit', f.qname, 'break under %s' % normalise(st.test if isinstance(st, ast.If) else st)[:80],
                            'no returned name is written before the stop', where)
-        seen_write |= writes_to(st, outs)
+        seen_write |= writes_to(st, outs, root)
     # ---------------- recurrence (AST dataflow inside the main loop)
     assigns = {}
     for st in ast.walk(main):
@@ -113,8 +146,8 @@ def run(prog, rep, tier='quick'):
     for st in ast.walk(main):
         if isinstance(st, ast.Assign) and isinstance(st.targets[0], ast.Subscript) and isinstance(st.targets[0].value, ast.Name) \
                 and isinstance(st.value, ast.Name):
-            stored.setdefault(rep_name(st.value.id), set()).add(st.targets[0].value.id)
-    aname, rname, refname = outs
+            stored.setdefault(rep_name(st.value.id), set()).add(root(st.targets[0].value.id))
+    aname, rname, refname = [r_[0] for r_ in rets3]
     kcands = [k for k, arrs in stored.items() if {aname, refname} <= arrs]
     ok = False
     detail = 'no coefficient is stored in both %s and %s' % (aname, refname)
